@@ -973,6 +973,11 @@ def cached_script_view(
     if req.method != "GET":
         return HttpResponseNotAllowed(["GET"])
 
+    # NOTE: Unknown script types must not reach the cache lookup - e.g. `js:0ab2c3` would
+    # produce the same cache key as the JS variables of input `0ab2c3`.
+    if script_type not in _CONTENT_TYPES:
+        return HttpResponseNotFound()
+
     comp_cls = comp_hash_mapping.get(comp_cls_hash)
     if comp_cls is None:
         return HttpResponseNotFound()
